@@ -1,13 +1,31 @@
-"""child process: perform one real checkpoint save (killed by strace at a chosen system call)"""
+"""child process: perform one real checkpoint save (killed by strace at a chosen system call).
+
+With a fourth argument "wait" the child first performs a warm-up save into a scratch folder (so that every lazy import and
+one-off initialisation has happened), announces READY, stops itself, and performs the real save once it is continued — the harness
+attaches strace while it is stopped, so system-call counts start at the save and are reproducible."""
+import os
 import pickle
+import shutil
+import signal
 import sys
+import tempfile
 
 backend, folder, statefile = sys.argv[1], sys.argv[2], sys.argv[3]
+sys.path.insert(0, os.path.join(os.path.dirname(__file__), ".."))
 args = pickle.load(open(statefile, "rb"))
+kw = getattr(args, "kw", {})
 if backend == "json":
     from black_it.utils import json_pandas_checkpointing as m
-    m.save_calibrator_state(folder, *args)
 else:
     from black_it.utils import sqlite3_checkpointing as m
-    m.save_calibrator_state(folder, *args)
-print("SAVED")
+    kw = {}
+if len(sys.argv) > 4 and sys.argv[4] == "wait":
+    warm = tempfile.mkdtemp(prefix="vpc06warm")
+    try:
+        m.save_calibrator_state(warm, *args, **kw)
+    finally:
+        shutil.rmtree(warm, ignore_errors=True)
+    print("READY", flush=True)
+    os.kill(os.getpid(), signal.SIGSTOP)
+m.save_calibrator_state(folder, *args, **kw)
+print("SAVED", flush=True)
